@@ -107,6 +107,15 @@ CHECKS["C06"] = dict(
     parts=[rapid_part("rapid", "compose", "TestC06", 1500, 12000, replay_test="TestC06Replay", replay_reps=10)],
 )
 
+CHECKS["C13"] = dict(
+    technique="property-based testing (rapid) with fault injection: generated graphs x fault plans x paradigms; oracle = reference model says which injected failure executes + errors.Is/As/text/sentinel/cancellation contract + process survival",
+    level_text="Generated-input search with injected faults: 1-3 lambdas (any nesting level, also several in one step) return a wrapped custom error, panic, deliver an error item or a panic on their output stream, or cancel the context; all four paradigms. When the reference model says an injected failure executes, the call must fail, errors.Is/As must recover the injected error of one of the failing nodes, the text must name its node path outer->inner->key, panics must be reported as errors; the step-limit sentinel and context.Canceled must be matchable with errors.Is. A panic that kills the test process is reported as a violation through the current-case file.",
+    level_note="For failures that travel on a stream in stream-mode paradigms only survival/return is asserted here (whether such a stream is read is decided by C04's influence analysis). Node path naming is not asserted below chain levels (chain node keys are generated by the framework).",
+    rule="rapid draws a GraphSpec (all modes, nested, paradigm subsets) and a fault plan; non-trivial = the model executes an injected failure and (it sits at nesting depth >= 1, or >= 2 failing nodes execute in the failing step, or the failure travels on a stream); distinct = FNV-1a of case JSON",
+    assumptions=GRAPH_ASSUME,
+    parts=[rapid_part("rapid", "compose", "TestC13", 4000, 40000, replay_test="TestC13Replay")],
+)
+
 # properties not claimed (with reason); everything else not in CHECKS is "not built yet"
 NOT_APPLICABLE = {}
 
